@@ -35,9 +35,12 @@ MAX_REPORTS = 3
 
 def _compile(cfg):
     try:
-        src, _f, _r, _d = L.caller_source()
+        src, _f, _r = L.caller_source()
         out = configs.compile_src(src, cfg, formats=("bytecode", "method_identifiers"))
-        return {"ok": True, "bytecode": out["bytecode"], "mi": out["method_identifiers"]}
+        dsrc, _d = L.dyn_caller_source()
+        dout = configs.compile_src(dsrc, cfg, formats=("bytecode", "method_identifiers"))
+        return {"ok": True, "bytecode": out["bytecode"], "mi": out["method_identifiers"],
+                "dbytecode": dout["bytecode"], "dmi": dout["method_identifiers"]}
     except Exception as e:
         return {"ok": False, "error": f"{type(e).__name__}: {e}"[:2000]}
 
@@ -47,7 +50,7 @@ def py_expected(fn, beh):
     name, ty, m, skip, dflt, value, gas = fn
     code, mode, data = beh
     _vt, tys, _valid, _inv, _dl, dw = L.TYPES[ty]
-    static = m == "v"
+    static = m in ("v", "u")
     if not code:
         if not skip:
             return ("revert", b"")
@@ -101,7 +104,8 @@ def run(ctx):
                    {"theorem": b.get("failed_lemma"), "file": b["file"], "coq_output": b["out"][-1500:]})
     elif b["ok"] and pending is None:
         ctx.extra["syntactic_matches"] = nt
-    src, fns, raws, dfns = L.caller_source()
+    src, fns, raws = L.caller_source()
+    dsrc, dfns = L.dyn_caller_source()
     rnd = ctx.rng("beh")
     cases = [(fn, beh) for fn in fns for beh in L.behaviours(fn[1], rnd)]
     rawbeh = [(False, 0, b""), (True, 0, b""), (True, 0, bytes(range(1, 21))), (True, 0, bytes(range(1, 33))),
@@ -122,10 +126,14 @@ def run(ctx):
     dpreds = coqrun.eval_zlists("From Verif Require Import C12.ExtCall C06.Abi C05.Dec C05.Harness C12.ExtCallDyn.\n",
                                 [D.model_expr(f, cs, code, mode) for f, cs, code, mode in dcases], "c12d", shard=6)
     dpreds = [D.split(v) for v in dpreds]
+    import time as _t
+    _t0 = _t.time()
+    ctx.log(f'models evaluated at {_t0 - ctx.t0:.0f}s')
     cfgs = configs.configs(ctx.tier)
     with ProcessPoolExecutor(max_workers=3) as ex:
         builds = list(ex.map(_compile, cfgs, chunksize=1))
         bbuilds = list(ex.map(BC.compile_builtins, cfgs, chunksize=1))
+    ctx.log(f'compiled at {_t.time() - ctx.t0:.0f}s')
     n_eval = n_nontriv = n_fail = n_mis = 0
     dist = {}
     reports = []
@@ -139,16 +147,23 @@ def run(ctx):
         ch = Chain(cfg.evm)
         callee = ch.set_code(None, runtime)
         caller = ch.deploy(bytes.fromhex(bd["bytecode"][2:]))
+        dcaller = ch.deploy(bytes.fromhex(bd["dbytecode"][2:]))
+        if caller is None or dcaller is None:
+            ctx.violation("correspondence-broken", f"caller contract cannot be deployed under {cfg.name} (code size?)",
+                          {"config": cfg.name, "sizes": [len(bd["bytecode"]) // 2, len(bd["dbytecode"]) // 2]})
+            continue
         ch.evm.set_balance(caller, 10**18)
         mi = {k.split("(")[0]: int(v, 16).to_bytes(4, "big") for k, v in bd["mi"].items()}
-        cur_target = [None]
+        dmi = {k.split("(")[0]: int(v, 16).to_bytes(4, "big") for k, v in bd["dmi"].items()}
+        cur_target = {}
 
-        def set_target(code):
+        def set_target(code, who=None):
+            who = who or caller
             tgt = callee if code else L.NO_CODE
-            if cur_target[0] != tgt:
-                r = ch.call(caller, mi["set_t"] + bytes(12) + bytes.fromhex(tgt[2:]))
+            if cur_target.get(who) != tgt:
+                r = ch.call(who, mi["set_t"] + bytes(12) + bytes.fromhex(tgt[2:]))
                 assert r.ok
-                cur_target[0] = tgt
+                cur_target[who] = tgt
 
         def report(kind, name, detail):
             nonlocal found
@@ -186,12 +201,12 @@ def run(ctx):
         # dynamic return types
         for (fn, cs, code, mode), plist in zip(dcases, dpreds):
             base = D.base_encoding(fn[1])
-            set_target(code)
+            set_target(code, dcaller)
             for c, pred in zip(cs, plist):
                 data = D.apply_c(c, base)
                 L.install(ch, callee, mode, data)
-                cd = mi[fn[0]] + rnd.randrange(2**256).to_bytes(32, "big")
-                r = ch.call(caller, cd)
+                cd = dmi[fn[0]] + rnd.randrange(2**256).to_bytes(32, "big")
+                r = ch.call(dcaller, cd)
                 n_eval += 1
                 n_nontriv += 1
                 dist["dyn:" + fn[1]] = dist.get("dyn:" + fn[1], 0) + 1
@@ -200,10 +215,10 @@ def run(ctx):
                           "kwargs": {"skip_contract_check": fn[3], "default_return_value": fn[4]},
                           "callee": {"has_code": code, "mode": mode, "data_hex": data.hex(), "corruption": str(c)[:80]},
                           "calldata_hex": cd.hex(), "expected(model) [status, bytes]": bytes(pred[1:]).hex() + f" status={pred[0]}",
-                          "observed": bytes(real[1:]).hex() + f" status={real[0]}", "caller_source": src}
+                          "observed": bytes(real[1:]).hex() + f" status={real[0]}", "caller_source": dsrc}
                 # property oracle independent of the model
                 bad = None
-                static = fn[2] == "v"
+                static = fn[2] in ("v", "u")
                 callee_fails = code and (mode in (1, 2) or (mode == 3 and static))
                 if r.ok:
                     if callee_fails:
@@ -214,6 +229,8 @@ def run(ctx):
                         bad = "returndata shorter than the static size was accepted"
                     else:
                         bad = D.in_bounds(fn[1], r.out)
+                        if bad is None and code and not (fn[4] and len(data) == 0):
+                            bad = D.decodes_returndata(fn[1], data, r.out)
                 elif callee_fails and r.out != (data if mode == 1 else b""):
                     bad = "revert data not propagated unchanged"
                 if bad:
@@ -270,6 +287,7 @@ def run(ctx):
         if got != want:
             n_fail += 1
             report("failing-input", "calldata seen by the callee is not selector ++ abi(args)", {"config": cfg.name, "want": want, "got": got, "caller_source": src})
+    ctx.log(f'interface-call correspondence done at {_t.time() - ctx.t0:.0f}s')
     # ---- builtins: send / raw_revert / raw_call kinds / create_*
     bcases = BC.build_cases(rnd)
     cache = {}
